@@ -334,7 +334,12 @@ theorem ptype_in_namespace (u : Option String) (t : LPType) (x : XmlNode) (h : w
           simp only [he] at h; injection h with h; subst h
           exact node_in_namespace u _ _ _ _ ((allInNsList_append u _ _).mpr
             ⟨⟨node_in_namespace u _ _ _ _ ⟨encoding_in_namespace u _ encEl he, trivial⟩, trivial⟩, href⟩)
-    · cases h
+    · cases he : writeEncoding u t.enc with
+      | error e => simp [he] at h
+      | ok encEl =>
+        simp only [he] at h; injection h with h; subst h
+        exact node_in_namespace u _ _ _ _ ((allInNsList_append u _ _).mpr
+          ⟨⟨node_in_namespace u _ _ _ _ ⟨encoding_in_namespace u _ encEl he, trivial⟩, trivial⟩, href⟩)
   · cases he : writeEncoding u t.enc with
     | error e => simp [he] at h
     | ok encEl =>
